@@ -74,3 +74,45 @@ def source_reaches_field(fn, source_rx, field_suffix):
                     if recv_is_field and any(op_local(a) in fw for a in c["a"][1:]):
                         return True
     return False
+
+
+# ------------------------------------------------------------------ R-FLOW.serde
+def serde_fields_restored(ctx, fx, struct_rx, rule="R-FLOW.serde", path_rx=r"blob_store"):
+    """in the derive-generated Deserialize visitors (visit_seq / visit_map) of the persistent store structs, every field
+    of the struct is built from a value taken out of the input (`next_element` / `next_value`), none from a default:
+    a skipped id counter restarts at its initial value after a reload and the next put overwrites a live record."""
+    import re
+    from vlib.mir import Fn, op_local
+    srx, prx = re.compile(struct_rx), re.compile(path_rx)
+    n = 0
+    for fid in fx.fn_ids():
+        if not (("visit_seq" in fid or "visit_map" in fid) and prx.search(fid)):
+            continue
+        fn = Fn(fx.raw(fid))
+        for loc, st in fn.iter_locs():
+            if st[0] != "a" or st[2][0] != "agg" or not isinstance(st[2][1], str) or not st[2][1].startswith("adt:") or not st[2][3]:
+                continue
+            adt = st[2][1][4:].rsplit("::", 1)[0]
+            if not srx.search(adt):
+                continue
+            n += 1
+            ctx.analysed_fns.add(fid)
+            missing = []
+            for name, o in zip(st[2][3], st[2][2]):
+                l = op_local(o)
+                ok = False
+                if l is not None:
+                    locs, sites = fn.backslice([l], max_nodes=80)
+                    ok = any(k == "call" and pl["f"].rsplit("::", 1)[-1] in ("next_element", "next_value", "next_element_seed", "next_value_seed")
+                             for _, k, pl in sites)
+                if not ok:
+                    missing.append(name)
+            ctx.obligation(rule, fid, "%s restored field by field" % adt.rsplit("::", 1)[-1], not missing,
+                           sample={"visitor": fid[-60:], "struct": adt.rsplit("::", 1)[-1], "fields": list(st[2][3]), "not_from_input": missing})
+            if missing:
+                ctx.violation(rule, adt, "field %s not restored by Deserialize" % missing,
+                              "deserialising a %s fills %s from a default instead of the serialised data: after a save/load cycle "
+                              "the store continues from the initial value (an id counter hands out ids of live records again)"
+                              % (adt.rsplit("::", 1)[-1], missing), fn.file, st[3])
+    ctx.instance(rule + ".visitors", n)
+    return n
